@@ -280,3 +280,56 @@ func vfMutexBlockedInRepo() string {
 	}
 	return strings.Join(where, "; ")
 }
+
+var vfChanSendState = regexp.MustCompile(`^goroutine \d+ \[chan send[^\]]*\]:$`)
+
+// vfChanSendBlockedInRepo samples all goroutine stacks twice, 2 s apart, and returns the repository functions in which a
+// goroutine whose stack runs through `under` is blocked in a channel SEND made directly by repository (non-harness) code
+// both times ("" if none): the receiver of that channel is not there, or its buffer is full and nobody drains it.
+func vfChanSendBlockedInRepo(under string) string {
+	sample := func() map[string]string {
+		buf := make([]byte, 8<<20)
+		n := runtime.Stack(buf, true)
+		out := map[string]string{}
+		for _, g := range strings.Split(string(buf[:n]), "\n\n") {
+			lines := strings.Split(g, "\n")
+			if len(lines) < 3 || !vfChanSendState.MatchString(lines[0]) || !strings.Contains(g, under) {
+				continue
+			}
+			id := strings.Fields(lines[0])[1]
+			// the innermost frame that is not the runtime's must be repository code
+			for i := 1; i+1 < len(lines); i += 2 {
+				fn, file := lines[i], lines[i+1]
+				if strings.HasPrefix(fn, "runtime.") {
+					continue
+				}
+				inRepo := strings.Contains(file, "/repo/") || strings.Contains(file, "/s2s-proxy/")
+				if r := os.Getenv("VF_REPO"); r != "" && strings.Contains(file, r+"/") {
+					inRepo = true
+				}
+				if inRepo && !strings.Contains(file, "/vf_") && !strings.Contains(file, "/vfshared/") {
+					if k := strings.LastIndex(fn, "("); k > 0 {
+						fn = fn[:k]
+					}
+					out[id] = fn[strings.LastIndex(fn, "/")+1:] + " (" + strings.TrimSpace(strings.Fields(file)[0]) + ")"
+				}
+				break
+			}
+		}
+		return out
+	}
+	a := sample()
+	time.Sleep(2 * time.Second)
+	b := sample()
+	var where []string
+	for id, fn := range a {
+		if b[id] == fn {
+			where = append(where, fn)
+		}
+	}
+	sort.Strings(where)
+	if len(where) > 4 {
+		where = where[:4]
+	}
+	return strings.Join(where, "; ")
+}
